@@ -273,9 +273,9 @@ func ruleText(prop string) string {
 	case "C02":
 		return "for every table of F2/F3 x configurations every lookup key of every class (each key, its successor and predecessor strings, proper prefixes, empty, beyond-last; for logs each (name,u) with u in {index, index±1, 0, max}) is sought with SeekRef/SeekLog/ReadRef/ReadLogAt; the iteration after the seek must be the suffix of the normalised input with key >= the sought key. Non-trivial = table with >=2 blocks in the sought section"
 	case "C03":
-		return "every stack of 1..k tables over 3 ref names and 4 log keys, each key per table in {absent, value_i, deletion}, is read through the raw merged view and the stack view (tombstones suppressed) with every seek key class; results must equal the newest-wins overlay of the reference model. Non-trivial = stack of >=2 tables in which at least one key occurs in two tables"
+		return "every stack of 1..k tables over 3 ref names and 4 log keys, each key per table in {absent, value_i, deletion}, is read through the raw merged view and the stack view (tombstones suppressed) with every seek key class; results must equal the newest-wins overlay of the reference model. In addition stacks of MULTI-BLOCK tables: every ordered pair and (quick: a subset of the) triples of 9 table shapes over 24 ref names / 24 log keys at block size 128/256 (1 to 12 blocks per table: sought linearly or through an index), sought at every name, its successor string and the ends (thorough: every key class). Non-trivial = stack of >=2 tables in which at least one key occurs in two tables, or >=2 multi-block tables"
 	case "C11":
-		return "every table of family F4 (object ids sharing prefixes of length 0/1/19, 1..40 refs, min update index 0 and 5) x {indexed, SkipIndexObjects, truncated position lists} x every object id (present, absent, same abbreviation) and every stack of <=3 small tables with re-pointed and deleted refs, raw and stack view: RefsFor must equal the filter of the reference model. Non-trivial = the queried id occurs in the table/stack"
+		return "every table of family F4 (object ids sharing prefixes of length 0/1/19, 1..160 refs, min update index 0 and 5; plus the fan-in sweep: one object in a run of 1, 4, 7, ... adjacent refs, i.e. in every possible number of ref blocks) x {indexed, SkipIndexObjects, truncated position lists} x every object id (present, absent, same abbreviation) and every stack of <=3 small tables with re-pointed and deleted refs, raw and stack view: RefsFor must equal the filter of the reference model. Non-trivial = the queried id occurs in the table/stack"
 	}
 	return ""
 }
